@@ -234,6 +234,13 @@ func runC11(r *Report, p *Program) {
 							return
 						}
 					}
+					// a field of an unexported carrier struct that every construction of the struct sets from a
+					// parameter, an allocation or a call result is no configuration-dependent nil either
+					if ld, ok := a.(*ssa.UnOp); ok {
+						if fa, ok := ld.X.(*ssa.FieldAddr); ok && carrierFieldSet(p, fa) {
+							return
+						}
+					}
 					tested := nilEdges(g, false, func(v ssa.Value) bool { return sameValue(v, a) })
 					if len(tested) == 0 || !onlyVia(g, x, tested) {
 						bad = shortFunc(g) + " passes " + describe(a) + " at " + p.Pos(x.Pos())
@@ -277,4 +284,48 @@ func canReachThroughEdges(fn *ssa.Function, target ssa.Instruction, edges map[ed
 		}
 	}
 	return false
+}
+
+
+// carrierFieldSet: fa addresses a field of an unexported struct type of the module, and every allocation of that
+// struct type in the module stores that field, never with a nil constant or a value loaded from another field.
+func carrierFieldSet(p *Program, fa *ssa.FieldAddr) bool {
+	pt, ok := fa.X.Type().Underlying().(*types.Pointer)
+	if !ok {
+		return false
+	}
+	named, ok := pt.Elem().(*types.Named)
+	if !ok || named.Obj().Exported() || named.Obj().Pkg() == nil || !isModPkg(named.Obj().Pkg().Path()) {
+		return false
+	}
+	n := 0
+	okAll := true
+	for _, fn := range p.ModFuncs() {
+		allInstrs(fn, func(in ssa.Instruction) {
+			al, isAl := in.(*ssa.Alloc)
+			if !isAl || !types.Identical(al.Type(), fa.X.Type()) {
+				return
+			}
+			n++
+			vs := fieldStores(al, fa.Field)
+			if len(vs) == 0 {
+				okAll = false
+			}
+			for _, v := range vs {
+				switch t := v.(type) {
+				case *ssa.Const:
+					if t.Value == nil {
+						okAll = false
+					}
+				case *ssa.UnOp:
+					if pth, _ := fieldPath(t); pth != "" {
+						okAll = false
+					}
+				case *ssa.Lookup:
+					okAll = false
+				}
+			}
+		})
+	}
+	return n > 0 && okAll
 }
